@@ -53,13 +53,30 @@ def build_impl(cxx="clang++", extra_flags=SAN_FLAGS, opt="-O1", tag="san"):
 
 
 def build_harness(name, srcdir, lib, cxx="clang++", extra_flags=SAN_FLAGS, opt="-O1", tag="san"):
+    """Compile harness/<name>.cpp, or every .cpp in harness/<name>/ (in parallel), and link against the library."""
+    from concurrent.futures import ThreadPoolExecutor
     out = os.path.join(scratch(), f"{name}-{tag}")
-    src = os.path.join(VERIF, "harness", name + ".cpp")
-    cmd = (f"{cxx} -std=c++17 {opt} -g {extra_flags} -I{srcdir}/src -I{srcdir}/include -I{VERIF}/harness "
-           f"{src} {lib} -lstdc++fs -o {out}")
-    r = sh(cmd)
+    if os.path.exists(out):
+        return out
+    single = os.path.join(VERIF, "harness", name + ".cpp")
+    srcs = [single] if os.path.exists(single) else sorted(glob.glob(os.path.join(VERIF, "harness", name, "*.cpp")))
+    if not srcs:
+        raise MachineryError("no harness sources for " + name)
+    flags = f"-std=c++17 {opt} -g {extra_flags} -I{srcdir}/src -I{srcdir}/include -I{VERIF}/harness"
+    objdir = os.path.join(scratch(), f"obj-{name}-{tag}")
+    os.makedirs(objdir, exist_ok=True)
+
+    def cc(src):
+        obj = os.path.join(objdir, os.path.basename(src)[:-4] + ".o")
+        return obj, sh(f"{cxx} {flags} -c {src} -o {obj}")
+    with ThreadPoolExecutor(max_workers=min(NPROC, len(srcs))) as ex:
+        results = list(ex.map(cc, srcs))
+    for obj, r in results:
+        if r.returncode:
+            raise MachineryError(f"harness {name} does not compile:\n" + r.stderr[-4000:])
+    r = sh(f"{cxx} {opt} -g {extra_flags} {' '.join(o for o, _ in results)} {lib} -lstdc++fs -o {out}")
     if r.returncode:
-        raise MachineryError(f"harness {name} does not compile:\n" + r.stderr[-4000:])
+        raise MachineryError(f"harness {name} does not link:\n" + r.stderr[-4000:])
     return out
 
 
@@ -187,6 +204,98 @@ def run_isolated(cmd, env=None, timeout=3600, max_crashes=60, cwd=None, skip_fla
             summary = dict(summary, truncated=True, reason="crash budget exhausted", resumed_at=start)
             break
     return dict(mismatches=mism, summary=summary, crashes=crashes, signature_counts=sig_counts, skipped_sites=skip_sites)
+
+
+# ------------------------------------------------------------------------------------------------
+# pipeline G helpers: generate scenarios with TLC, replay them in parallel shards
+
+def cfg_text(constants=None, invariants=(), properties=(), spec="Spec", deadlock=False, extra=""):
+    t = ""
+    if constants:
+        t += "CONSTANTS\n" + "".join(f"  {k} = {v}\n" for k, v in constants.items())
+    t += f"SPECIFICATION {spec}\n" + ("" if deadlock else "CHECK_DEADLOCK FALSE\n")
+    for i in invariants:
+        t += f"INVARIANT {i}\n"
+    for i in properties:
+        t += f"PROPERTY {i}\n"
+    return t + extra
+
+
+_gen_counter = [0]
+
+
+def generate(module, constants=None, invariants=(), properties=(), workers=1, small_heap=False, tag="S", timeout=3000,
+             required=True, subst=None):
+    """Run the bounded instance spec/<module>.tla; its model-level checks must pass (anything else is a machinery failure:
+    the specification is wrong, not the code).  Records printed under `tag` are written to an ndjson file.
+    Returns dict(file, n, states, generated, sample, wall_s, records)."""
+    _gen_counter[0] += 1
+    cfg = os.path.join(scratch(), f"{module}_{_gen_counter[0]}.cfg")
+    extra = "".join(f"CONSTANT {k} <- {v}\n" for k, v in (subst or {}).items())
+    open(cfg, "w").write(cfg_text(constants, invariants, properties, extra=extra))
+    r = run_tlc(module, cfg, tags=(tag,), workers=workers, small_heap=small_heap, timeout=timeout)
+    if r["violation"] or not r["ok"]:
+        raise MachineryError(f"{module}: the specification instance did not pass its own model-level checks:\n" + r["stdout"][-3000:])
+    recs = r["records"][tag]
+    if required and not recs:
+        raise MachineryError(f"vacuity: {module} exported nothing under tag {tag}")
+    path = os.path.join(scratch(), f"{module}_{_gen_counter[0]}.ndjson")
+    with open(path, "w") as f:
+        for x in recs:
+            f.write(json.dumps(x) + "\n")
+    return dict(file=path, n=len(recs), states=r.get("distinct", 0), generated=r.get("generated", 0), records=recs, wall_s=r["wall_s"],
+                module=module, constants=constants or {})
+
+
+def shm_dir():
+    """Scratch for file-system heavy scenario sandboxes (tmpfs when available)."""
+    base = os.environ.get("VERIF_SHM", "/dev/shm")
+    if not os.path.isdir(base) or not os.access(base, os.W_OK):
+        base = scratch()
+    d = tempfile.mkdtemp(prefix="op2verif.", dir=base)
+    atexit.register(lambda: shutil.rmtree(d, ignore_errors=True))
+    return d
+
+
+def run_scenarios(harness, scen_file, pid, shards=None, log=False, env=None, max_crashes=80, extra_args=(), timeout=3000):
+    """Replay a scenario file with the interpreter, split round-robin into parallel shards.
+    Returns dict(mismatches, scenarios, steps, crashes, log=<path or None>)."""
+    from concurrent.futures import ThreadPoolExecutor
+    lines = [l for l in open(scen_file) if l.strip()]
+    n = max(1, min(shards or NPROC, len(lines) // 8 or 1))
+    work = shm_dir()
+    parts = []
+    for k in range(n):
+        pf = os.path.join(scratch(), f"{os.path.basename(scen_file)}.{pid}.{k}")
+        with open(pf, "w") as f:
+            f.writelines(lines[k::n])
+        parts.append(pf)
+
+    def one(k):
+        cmd = [harness, "--scenarios", parts[k], "--workdir", os.path.join(work, f"w{k}"), "--prop", pid, "--seed", str(SEED)] + list(extra_args)
+        if log:
+            cmd += ["--log", parts[k] + ".log"]
+        return run_isolated(cmd, env=env, max_crashes=max_crashes, timeout=timeout)
+    with ThreadPoolExecutor(max_workers=n) as ex:
+        res = list(ex.map(one, range(n)))
+    out = dict(mismatches=[], scenarios=0, steps=0, crashes=0, log=None)
+    for k, r in enumerate(res):
+        for m in r["mismatches"]:
+            m["shard"] = k
+        out["mismatches"] += r["mismatches"]
+        out["scenarios"] += r["summary"].get("scenarios", 0)
+        out["steps"] += r["summary"].get("steps", 0)
+        out["crashes"] += r["crashes"]
+        if r["summary"].get("truncated"):
+            out["truncated"] = True
+    if log:
+        out["log"] = os.path.join(scratch(), f"{os.path.basename(scen_file)}.{pid}.log")
+        with open(out["log"], "w") as f:
+            for pf in parts:
+                if os.path.exists(pf + ".log"):
+                    f.write(open(pf + ".log").read())
+    shutil.rmtree(work, ignore_errors=True)
+    return out
 
 
 # ------------------------------------------------------------------------------------------------
